@@ -114,12 +114,12 @@ func main() {
 				time.Sleep(3 * time.Millisecond)
 			}
 		}()
-		var wg sync.WaitGroup
+		var wg, mwg sync.WaitGroup
 		start := make(chan struct{})
 		for wk := 0; wk < 24; wk++ {
-			wg.Add(1)
+			mwg.Add(1)
 			go func(wk int) {
-				defer wg.Done()
+				defer mwg.Done()
 				<-start
 				for i := 0; i < 30; i++ {
 					id := fmt.Sprintf("p%d-%d-%d", round, wk, i)
@@ -160,10 +160,46 @@ func main() {
 				}
 			}(wk)
 		}
+		// swap isolation: fixed.com carries a fixed-response remedy in every policy set that is ever
+		// installed (apply, both reverts), so a request with the early-response header is answered 418
+		// whichever set - old or new - handles it; anything else was handled with no installed set
+		var swapProbes, swapBad atomic.Int64
+		var swapWitness atomic.Value
+		for wk := 0; wk < 8; wk++ {
+			wg.Add(1)
+			go func(wk int) {
+				defer wg.Done()
+				defer func() {
+					if r := recover(); r != nil {
+						swapBad.Add(1)
+						swapWitness.CompareAndSwap(nil, fmt.Sprintf("panic in the engine while handling a request during a policy swap: %v", r))
+					}
+				}()
+				<-start
+				for i := 0; !stop.Load() && i < 4000; i++ {
+					id := fmt.Sprintf("s%d-%d-%d", round, wk, i)
+					res := eng.SendRequest(sim.Txn{ID: id, Method: "GET", URL: "fixed.com/swap", Headers: map[string]string{"early-response": "true"}})
+					swapProbes.Add(1)
+					if !res.Early() || res.Status() != 418 {
+						swapBad.Add(1)
+						swapWitness.CompareAndSwap(nil, fmt.Sprintf("%s: early=%v vars=%v", id, res.Early(), res.Vars))
+						eng.SendResponse(sim.Txn{ID: id, Method: "GET", URL: "fixed.com/swap", Status: 200})
+					}
+				}
+			}(wk)
+		}
+		var mainWg sync.WaitGroup
+		mainWg.Add(1)
+		go func() { defer mainWg.Done(); mwg.Wait(); stop.Store(true) }()
 		close(start)
+		mainWg.Wait()
 		wg.Wait()
-		stop.Store(true)
 		bg.Wait()
+		v.Count("swap_isolation_probes", int(swapProbes.Load()))
+		if n := swapBad.Load(); n > 0 {
+			w, _ := swapWitness.Load().(string)
+			v.Violate("C18/policy-swap/transaction-handled-without-any-installed-policy-set", fmt.Sprintf("%d of %d fixed.com requests sent while policies were being swapped were not answered by the fixed-response remedy that every installed policy set contains (first: %s)", n, swapProbes.Load(), w), w)
+		}
 		note := fmt.Sprintf("round %d: throttling passed %d rejected %d, cache hits %d, fixed %d, queue rejected %d, retries %d, admin ops %d", round, passed.Load(), rejected.Load(), hits.Load(), fixed.Load(), queued.Load(), retries.Load(), applied)
 		v.Count("policy_rounds", 1)
 		v.Count("policy_transactions", 24*30)
